@@ -152,6 +152,8 @@ fn http_values() -> Vec<HSig> {
         Header::new("Accept-Encoding").with_value("gzip,deflate"),
         Header::new("B").with_value(""),
     ];
+    // every character that means something to the grammar, inside a bracketed value and in header names
+    let special_values = ["a:b", "k=v", "?q", "x y", "[", "a,b", "=[", "1.1 squid:3128", "*/*;q=0.8", "\\", "\"", "é", ";", "-"];
     let mut lists: Vec<Vec<Header>> = vec![vec![]];
     for a in &hs {
         lists.push(vec![a.clone()]);
@@ -163,6 +165,16 @@ fn http_values() -> Vec<HSig> {
         }
     }
     let mut v = vec![];
+    for val in special_values {
+        for opt in [false, true] {
+            let h = Header { optional: opt, name: "X-Custom-9".to_string(), value: Some(val.to_string()) };
+            for (ho, ha) in [(vec![h.clone()], vec![]), (vec![Header::new("Host"), h.clone(), Header::new("Accept")], vec![h.clone()]), (vec![Header::new("Host")], vec![Header::new("Via"), h.clone()])] {
+                for sw in ["", "a:b c/1.0", val] {
+                    v.push(HSig { version: Version::Any, horder: ho.clone(), habsent: ha.clone(), expsw: sw.to_string() });
+                }
+            }
+        }
+    }
     for ver in [Version::V10, Version::V11, Version::Any] {
         for ho in lists.iter().filter(|l| !l.is_empty()) {
             for ha in lists.iter().filter(|l| l.len() <= 2) {
@@ -218,7 +230,7 @@ pub const LINE_KINDS: [&str; 18] = [
     "label = g:!:Other:",
     "sig   = *:64:0:*:mss*10,6:mss,sok,ts,nop,ws:df,id+:0",
     "sig = 4:128:0:1460:8192,0:mss,nop,nop,sok:df,id+:0",
-    "sig   = 1:Host,User-Agent,?Cookie,Accept=[*/*]:Via,Accept-Charset:Firefox/",
+    "sig   = 1:Host,User-Agent,?Cookie,Accept=[*/*;q=0.8],?Via=[1.1 squid:3128]:Via,Accept-Charset:Firefox/",
     "sig = 1500",
     "sig = 4:64:0",
     "classes = win,unix",
@@ -290,9 +302,25 @@ pub fn ref_load(text: &str) -> Result<DbDesc, String> {
                 d.tables[t].push((value.to_string(), vec![]));
             }
             ("sig", _, Some(t)) => {
-                let ok = if t < 2 { TSig::from_str(value).map(|s| s.to_string()).map_err(|e| e.to_string()) } else { HSig::from_str(value).map(|s| s.to_string()).map_err(|e| e.to_string()) };
-                let s = ok?;
-                d.tables[t].last_mut().ok_or("signature without label")?.1.push(s);
+                // independent of the implementation's grammar: a signature line is taken as written (the
+                // alphabet and the bundled file hold canonical lines) and judged by its field count outside
+                // brackets: 8 colon-separated fields for TCP, 4 for HTTP
+                let mut depth = 0;
+                let mut fields = 1;
+                for c in value.chars() {
+                    match c {
+                        '[' => depth += 1,
+                        ']' => depth -= 1,
+                        ':' if depth == 0 && (t < 2 || fields < 4) => fields += 1,
+                        _ => {}
+                    }
+                }
+                let first = value.split(':').next().unwrap_or("");
+                let first_ok = if t < 2 { ["4", "6", "*"].contains(&first) } else { ["0", "1", "*"].contains(&first) };
+                if !first_ok || fields != if t < 2 { 8 } else { 4 } {
+                    return Err(format!("signature with {fields} fields in table {t}: {value}"));
+                }
+                d.tables[t].last_mut().ok_or("signature without label")?.1.push(value.to_string());
             }
             ("sys", _, _) => {}
             _ => {}
